@@ -30,18 +30,20 @@ def cmdRange (s : SObs) (c : String) : Option (Nat × Nat) :=
 def rcptTainted (j : JState) (r : RcptRec) : Bool :=
   j.committed.any (fun x => x.tainted && x.client && x.idx ≥ r.first && x.idx ≤ r.last && x.cmd == toString r.c)
 
-def withSuffix (j : JState) (r : RcptRec) (v : String) : String :=
-  if rcptTainted j r then v ++ ":" ++ knownSuffix else v
+/-- the suffix applies when either of the two receipts in conflict covers an entry that a
+    DESIGN §8.1 install dropped (`nt` = the new receipt's range is such) -/
+def withSuffix (j : JState) (nt : Bool) (r : RcptRec) (v : String) : String :=
+  if nt || rcptTainted j r then v ++ ":" ++ knownSuffix else v
 
-def againstEarlier (j : JState) (c k p f l : Nat) : List RcptRec → List String
+def againstEarlier (j : JState) (nt : Bool) (c k p f l : Nat) : List RcptRec → List String
   | [] => []
   | r :: rs =>
     (if r.c == c then
        if r.k == k ∧ r.p == p then
-         (if r.first == f ∧ r.last == l then "ok" else withSuffix j r "viol:retry-different-range")
-       else withSuffix j r "viol:conflicting-retry-acked"
-     else if f ≤ r.last ∧ r.first ≤ l then withSuffix j r "viol:overlapping-receipts"
-     else "ok") :: againstEarlier j c k p f l rs
+         (if r.first == f ∧ r.last == l then "ok" else withSuffix j nt r "viol:retry-different-range")
+       else withSuffix j nt r "viol:conflicting-retry-acked"
+     else if f ≤ r.last ∧ r.first ≤ l then withSuffix j nt r "viol:overlapping-receipts"
+     else "ok") :: againstEarlier j nt c k p f l rs
 
 def firstBad : List String → String
   | [] => "ok"
@@ -76,7 +78,8 @@ def judge (j : JState) (op : Op) (cur : Obs) : String :=
              if (a, b) ≠ (f, l) then "viol:retry-different-range"
              else if after.leo ≠ before.leo then "viol:retry-stored-again" else "ok"
          if own != "ok" then own else
-         let vs := againstEarlier j c k p f l j.receipts
+         let nt := rcptTainted j ⟨c, k, p, f, l, AuthId.zero, i⟩
+         let vs := againstEarlier j nt c k p f l j.receipts
          -- unknown-class verdicts first
          match vs.find? (fun v => v != "ok" && !v.endsWith knownSuffix) with
          | some v => v
